@@ -18,7 +18,7 @@ LIMIT_MS = 5000
 STACK_MIB = 8
 JOBS = 8
 
-GARBAGE = {"quick": 30000, "thorough": 600000}
+GARBAGE = {"quick": 30000, "thorough": 1500000}
 # Trace_Cost handles a few thousand events per second; every family event, every event that is not
 # ok/err and this many of the others go through it per TLC run (the remainder is validated in further
 # TLC runs of the same size in the thorough tier, see _validate_all)
@@ -159,48 +159,87 @@ def run(prop, tier):
                       % (C.count_lines(mc_ev), time.time() - t1))
         # 5. trace validation.  First slice: every family event, every event whose outcome is not
         #    ok/err, and as many of the other events as fit; further slices: the rest.
-        fam_lines = open(fam_ev).read().splitlines()
-        other = []
-        for p in (gar_ev, mc_ev):
-            if p:
-                other += open(p).read().splitlines()
-        hot = [ln for ln in other if '"outcome":"ok"' not in ln and '"outcome":"err"' not in ln]
-        cold = [ln for ln in other if '"outcome":"ok"' in ln or '"outcome":"err"' in ln]
-        slices = [fam_lines + hot + cold[:TRACE_SLICE]]
-        rest = cold[TRACE_SLICE:]
-        max_slices = 1 if tier == "quick" else 40
-        while rest and len(slices) < max_slices:
-            slices.append(rest[:TRACE_SLICE])
-            rest = rest[TRACE_SLICE:]
+        #    Streamed: the event files of the thorough tier do not fit comfortably in memory.
+        counts = {}
+        total = 0
+        n_fam = 0
+        n_hot = 0
+        max_slices = 1 if tier == "quick" else 60
+        slice0 = os.path.join(wd, "c03.0.trace")
+        hot_path = os.path.join(wd, "c03.hot")
+        cold_paths = []
+        cold_f = None
+        cold_n = 0
+        dropped = 0
+
+        def outcome_of(ln):
+            k = ln.find('"outcome":"')
+            return ln[k + 11:ln.find('"', k + 11)] if k >= 0 else "?"
+
+        with open(slice0, "w") as f0, open(hot_path, "w") as fh:
+            for ln in open(fam_ev):
+                if ln.strip():
+                    f0.write(ln)
+                    n_fam += 1
+                    total += 1
+                    o = outcome_of(ln)
+                    counts[o] = counts.get(o, 0) + 1
+            for p in (gar_ev, mc_ev):
+                if not p:
+                    continue
+                for ln in open(p):
+                    if not ln.strip():
+                        continue
+                    total += 1
+                    o = outcome_of(ln)
+                    counts[o] = counts.get(o, 0) + 1
+                    if o not in ("ok", "err"):
+                        fh.write(ln)
+                        n_hot += 1
+                        continue
+                    if cold_f is None or cold_n >= TRACE_SLICE:
+                        if cold_f is not None:
+                            cold_f.close()
+                            cold_f = None
+                        if len(cold_paths) >= max_slices:
+                            dropped += 1
+                            continue
+                        cold_paths.append(os.path.join(wd, "c03.cold%d" % len(cold_paths)))
+                        cold_f = open(cold_paths[-1], "w")
+                        cold_n = 0
+                    cold_f.write(ln)
+                    cold_n += 1
+        if cold_f is not None:
+            cold_f.close()
+        # slice 0 = families + every event that is not ok/err + the first cold chunk
+        with open(slice0, "a") as f0:
+            for p in [hot_path] + cold_paths[:1]:
+                with open(p) as g:
+                    for ln in g:
+                        f0.write(ln)
+        slices = [slice0] + cold_paths[1:]
         validated = 0
         all_events = []
-        for k, sl in enumerate(slices):
-            trace = os.path.join(wd, "c03.%d.trace" % k)
-            with open(trace, "w") as f:
-                f.write("\n".join(sl) + "\n")
+        for k, trace in enumerate(slices):
             res, events = _validate(out, trace, dense, k == 0, "c03tv%d" % k)
             validated += len(events)
             C.log("C03: Trace_Cost slice %d: %d events in %.1fs" % (k, len(events), res.wall))
+            for e in events:
+                # non-trivial: a family member, an input of the C01/C02 model, an accepted input (the
+                # whole pipeline ran), a crash, or a mutated seed / structured document (rejected
+                # late); random alphabet strings that are rejected do not count
+                if e["outcome"] != "err" or e["family"] != "garbage" or \
+                        e.get("gen") in ("splice", "token", "seed", "structured"):
+                    out.nontriv([e["family"], e["n"], e["len"], e.get("text", [])[:64]])
             if k == 0:
                 all_events = events
             os.unlink(trace)
-        total = len(fam_lines) + len(other)
         out.traces = validated
         out.evaluations = total
-        counts = {}
-        for ln in fam_lines + other:
-            e = json.loads(ln)
-            counts[e["outcome"]] = counts.get(e["outcome"], 0) + 1
-        for e in all_events:
-            # non-trivial: a family member, an input of the C01/C02 model, an accepted input (the whole
-            # pipeline ran), a crash, or a mutated seed document (rejected late); random alphabet
-            # strings that are rejected do not count
-            if e["outcome"] != "err" or e["family"] != "garbage" or e.get("gen") in ("splice", "token", "seed", "structured"):
-                out.nontriv([e["family"], e["n"], e["len"], e.get("text", [])[:64]])
         for e in all_events[:3]:
             out.sample({"family": e["family"], "n": e["n"], "len": e["len"], "outcome": e["outcome"],
                         "ms": e["ms"]})
-        for e in all_events[len(fam_lines) + len(hot):len(fam_lines) + len(hot) + 3]:
+        for e in all_events[n_fam + n_hot:n_fam + n_hot + 3]:
             out.sample({"family": e["family"], "gen": e.get("gen"), "outcome": e["outcome"],
                         "text": "".join(chr(x) for x in e.get("text", []))[:120]}, limit=6)
         out.rule = ("one evaluation = one run of the pipeline from_raw -> Display -> pretty -> DOM walk forcing "
@@ -208,7 +247,7 @@ def run(prop, tier):
                     "worker process; judged by Trace_Cost.tla against the call machine of Cost.tla (only Return "
                     "and Error exist). Non-trivial = family member, input of the C01/C02 model, accepted input, crash, or "
                     "mutated seed document; rejected random-alphabet strings are not counted; distinct by "
-                    "(family, n, length, first 64 code points); counted over the first TLC slice")
+                    "(family, n, length, first 64 code points); counted over every event put through TLC")
         out.assumptions = [
             "wall-clock limit per call %d ms (the only time-related verdict; a time-out is re-run once with "
             "nothing else running and must reproduce), worker stack %d MiB, %d workers"
@@ -219,8 +258,9 @@ def run(prop, tier):
             "garbage inputs: %d seeded (seed %d) strings <= ~600 code points: markup alphabet, char-level "
             "splices and token-level mutations of 12 seed documents, structured documents with random entity "
             "graphs (cycles, undeclared, external, unparsed, parameter entities), ATTLIST defaults and nesting" % (n_garbage, C.seed()),
-            "events validated by TLC: %d of %d (all family events, all events that are not ok/err, and the "
-            "first %d ok/err events per TLC run)" % (validated, total, TRACE_SLICE),
+            "events validated by TLC: %d of %d (every family event and every event that is not ok/err in the "
+            "first TLC run; the ok/err events in TLC runs of %d events each; %d ok/err events beyond %d runs "
+            "not put through TLC)" % (validated, total, TRACE_SLICE, dropped, max_slices),
             "inputs of the C01/C02 model: %s" % ("included" if mc_ev else "not available in this run"),
             "memory exhaustion is not observed separately (it would surface as abort)",
         ]
